@@ -123,15 +123,22 @@ def run_property(prop, repo, tier, replay=None, quiet=False):
             known_hits.append(o)
         else:
             violations.append(o)
+    violations, relocated = relocate(ctx, violations, known_keys, {o.key for o in known_hits})
+    for (o, k) in relocated:
+        known_hits.append(o)
     if replay:
         want = json.load(open(replay)).get("key")
         violations = [v for v in violations if v.key == want]
     seen_known = set()
+    reloc_ids = {id(o) for (o, _) in relocated}
     for o in known_hits:
-        if o.key in seen_known:
+        if o.key in seen_known or id(o) in reloc_ids:
             continue
         seen_known.add(o.key)
         print(f"KNOWN-FINDING: property={prop} {o.key} :: {known_keys[o.key]['what']} ({o.where})")
+    for (o, k) in relocated:
+        seen_known.add(k)
+        print(f"KNOWN-FINDING: property={prop} {k} :: {known_keys[k]['what']} (same finding, now reported as {o.key} at {o.where}: the code moved)")
     for k in known_keys:
         if k not in seen_known and not quiet:
             print(f"STALE-KNOWN-FINDING: property={prop} {k} (listed but no longer reported)")
@@ -170,6 +177,47 @@ def run_property(prop, repo, tier, replay=None, quiet=False):
         print(f"{prop}: obligations={n} discharged={nd} reviewed-safe={nr} known-findings={len(known_hits)} violations={len(violations)} "
               f"bodies={len(prog.bodies)} wall={time.time() - t0:.1f}s")
     return rc
+
+
+def _sig(key):
+    """(rule, what) of an obligation key `rule|function|what[|ordinal]`"""
+    parts = key.split("|")
+    what = parts[2] if len(parts) > 2 else ""
+    return parts[0], what
+
+
+def relocate(ctx, violations, known_keys, hit_keys):
+    """A listed finding is identified by rule, function and site. A behaviour-preserving edit (rename, extracted helper, moved code, a
+    sibling site added or removed before it) changes the function name or the ordinal in the key while the defect is the same one.
+    A violation that is not listed is therefore matched against the *stale* listed findings (listed, not reported in this run) of the same
+    rule and the same site description, one-to-one; if one exists the violation is that finding at its new place. A violation with no
+    stale counterpart is new and is reported. The same is done for reviewed-safe entries (their reason is about the site, not its name)."""
+    stale = [k for k in known_keys if k not in hit_keys]
+    by_sig = {}
+    for k in stale:
+        by_sig.setdefault(_sig(k), []).append(k)
+    # C04's R4b sites share C07's (P2) reviewed-safe entries: the obligation is the same read, judged by two properties
+    alias = {"R4b": "P2"}
+    present = {o.key for o in ctx.obs} | {alias[o.rule] + "|" + o.key.split("|", 1)[1] for o in ctx.obs if o.rule in alias}
+    rules_here = {o.rule for o in ctx.obs} | {alias[o.rule] for o in ctx.obs if o.rule in alias}
+    stale_rev = [k for k in ctx.reviewed if k not in present and k.split("|")[0] in rules_here]
+    rev_by_sig = {}
+    for k in stale_rev:
+        rev_by_sig.setdefault(_sig(k), []).append(k)
+    out, relocated = [], []
+    for o in violations:
+        sg = _sig(o.key)
+        if by_sig.get(sg):
+            k = by_sig[sg].pop(0)
+            o.verdict = "known-finding"
+            relocated.append((o, k))
+        elif rev_by_sig.get(sg) or rev_by_sig.get((alias.get(sg[0], sg[0]), sg[1])):
+            k = (rev_by_sig.get(sg) or rev_by_sig.get((alias.get(sg[0], sg[0]), sg[1]))).pop(0)
+            o.verdict = "reviewed-safe"
+            o.detail += " [reviewed-safe entry " + k + " (site moved): " + ctx.reviewed[k]["reason"] + "]"
+        else:
+            out.append(o)
+    return out, relocated
 
 
 def selftest(prop, repo, log):
@@ -215,10 +263,15 @@ def selftest(prop, repo, log):
 
 
 def _violation_keys(prop, units):
+    """keys the check would print a VIOLATION line for on this fact base (after known-finding matching and relocation)"""
     prog = Program(units)
     ctx = Ctx(prog, prop, "quick")
     importlib.import_module(f"osq.rules.{prop.lower()}").run(ctx)
-    keys = {o.key for o in ctx.obs if o.verdict == "violation"}
+    known_keys = {k["key"]: k for k in load_known() if k["property"] == prop and k.get("status", "known") == "known"}
+    viol = [o for o in ctx.obs if o.verdict == "violation" and o.key not in known_keys]
+    hits = {o.key for o in ctx.obs if o.verdict == "violation" and o.key in known_keys}
+    viol, _ = relocate(ctx, viol, known_keys, hits)
+    keys = {o.key for o in viol}
     keys |= {f"COVERAGE-LOST|{r}|{w}" for (r, w, e, f) in ctx.floors if f < e}
     keys |= {f"ANCHOR-LOST|{r}|{w}" for (r, w) in ctx.anchors_lost}
     return keys
